@@ -294,8 +294,10 @@ def run(ctx):
     rule_modes(ctx, tu, ctx.py)
     rule_seed(ctx, tu)
     # ... and the seed those generators receive is the script's: given seeds (0 included) are kept, only a missing seed is drawn
-    from . import c08
+    from . import c08, c11
     c08.rule_py_seed(ctx, ctx.py, "C14.SEED-PY")
+    # ... and nothing survives from one set-up to the next: no function-local static (a cached normal deviate, a scratch buffer)
+    c11.rule_static(ctx, tu, "C14.STATIC")
     from .. import lints
     lints.run(ctx, "C14", ctx.py, ["rdscript"], truth_floor=5)
     ctx.assume("totals, non-negativity, 'zero stays zero', the Poisson law and termination of the redistribution loop "
